@@ -215,6 +215,7 @@ type Layout struct {
 	EmptyDash   bool   `json:"empty_dash"`   // rules without a note are followed by a dash with nothing behind it: `{..} -`
 	BlockInAnn  bool   `json:"block_in_ann"` // a ### block comment between the rules of an annotation and what follows them
 	EmptyCmt    bool   `json:"empty_cmt"`    // a ### block comment inside empty containers: `[### c ###]`, with EmptyPad `[ ### c ### ]`
+	EmptyAnn    int    `json:"empty_ann"`    // elements without rules and note get an empty annotation at the line end: 1 `//`, 2 `// ` + blanks, 3 `/**/`, 4 `/* */`
 	NoteBelow   bool   `json:"note_below"`   // an annotation that is only a note stands on a line of its own below its one-line element (last member / item, or the root)
 }
 
@@ -249,15 +250,17 @@ func RandLayout(rng *rand.Rand) Layout {
 		BlockInAnn:  rng.IntN(8) == 0,
 		NoteBelow:   rng.IntN(6) == 0,
 		EmptyCmt:    rng.IntN(6) == 0,
+		EmptyAnn:    []int{0, 0, 0, 0, 0, 0, 1, 2, 3, 4}[rng.IntN(10)],
 	}
 	return l
 }
 
 type printer struct {
-	l       Layout
-	sb      strings.Builder
-	comment int // running counter for deterministic comment texts
-	ruleSeq int // running counter of printed rule names (QuoteMix)
+	l        Layout
+	sb       strings.Builder
+	comment  int  // running counter for deterministic comment texts
+	ruleSeq  int  // running counter of printed rule names (QuoteMix)
+	emptyAnn bool // the last thing printed was an empty annotation (no user comment may follow inside it)
 }
 
 // Print renders a node as schema text.
@@ -295,6 +298,10 @@ func (p *printer) indent(level int) {
 // lineEndComment may add a user comment at the end of the current line. Only
 // called where the line ends outside a multi-line annotation.
 func (p *printer) lineEndComment() {
+	if p.emptyAnn {
+		p.emptyAnn = false
+		return
+	}
 	if p.l.Comments == 0 {
 		return
 	}
@@ -456,9 +463,15 @@ func (p *printer) noteBelow(n *Node, level int, tail string, ownLine bool) bool 
 
 // annotationAfter prints the annotation of a one-line element behind it, or on the next line.
 func (p *printer) annotationAfter(n *Node, level int, tail string, ownLine bool) {
-	if p.noteBelow(n, level, tail, ownLine) {
+	switch {
+	case p.noteBelow(n, level, tail, ownLine):
 		p.nl()
 		p.indent(level)
+	case !p.hasAnn(n) && p.l.EmptyAnn != 0 && ownLine:
+		// nothing to say, said explicitly
+		p.sb.WriteString([]string{" //", " //  \t", " /**/", " /* */"}[(p.l.EmptyAnn-1)%4])
+		p.emptyAnn = true
+		return
 	}
 	p.annotation(n, level)
 }
